@@ -3,7 +3,9 @@ a document (so that most clauses are NOT trivially unresolved).  All randomness 
 random.Random(seed): a (seed, index) pair replays a case exactly."""
 import json, random
 
-KEYS = ["a", "b", "c", "k", "Type", "Properties", "Resources", "Tags", "Key", "Value", "x-y", "camelKey"]
+# keys that begin with a keyword of the language (or / not / in / some / when / keys / this) are ordinary keys
+KEYS = ["a", "b", "c", "k", "Type", "origin", "Properties", "Resources", "Tags", "Key", "Value", "x-y", "camelKey",
+        "notes", "ORDER", "inner", "somekey", "keys_x", "orb"]
 STRS = ["", "a", "b", "ab", "A", "é", "1", "true", "null", "/a/", "AWS::S3::Bucket", "x y", "10"]
 INTS = [-1, 0, 1, 2, 10, -9223372036854775808, 9223372036854775807]
 FLOATS = [0.0, 1.5, 2.5, 1e308, 5e-324, 10.0]
@@ -41,16 +43,20 @@ class G:
             n = self.ch([0, 1, 2, 2, 3])
             if self.p(0.5):
                 # homogeneous list of maps (the shape filters are written for)
-                keys = self.r.sample(KEYS[:6], self.ch([1, 2]))
+                keys = self.r.sample(KEYS[:7], self.ch([1, 2]))
                 return [{k: self.value(depth - 2) for k in keys} for _ in range(n)]
             return [self.value(depth - 1) for _ in range(n)]
         n = self.ch([0, 1, 2, 3])
         keys = self.r.sample(KEYS, n)
-        return {k: self.value(depth - 1) for k in keys}
+        d = {k: self.value(depth - 1) for k in keys}
+        if "camelKey" in d and self.p(0.4):
+            # the same name in another spelling convention, with a value of its own
+            d[self.ch(["CamelKey", "camel_key", "camel-key"])] = self.value(depth - 1)
+        return d
 
     def doc(self, depth=3):
         n = self.ch([1, 2, 3, 4])
-        keys = self.r.sample(KEYS[:5], min(n, 5))
+        keys = self.r.sample(KEYS[:6], min(n, 6))
         return {k: self.value(depth - 1) for k in keys}
 
     def cfn_doc(self):
@@ -111,6 +117,9 @@ class G:
 
     # ---------------------------------------------------------------- queries
     def key_part(self, k, first):
+        if k == "camelKey" and self.p(0.3):
+            # queried in another spelling convention (the evaluator falls back on case conversions)
+            k = self.ch(["camel_key", "CamelKey", "camel-key", "Camel-Key"])
         simple = k.isalnum() and k[0].isalpha()
         if first:
             # a quoted first part would be read as a string literal on a right-hand side
